@@ -71,6 +71,9 @@ pub fn generate(g: &mut Gen, thorough: bool) {
         ];
         g.push(format!("S_C06\tspecial\t{e}\t{}", data_of(&pts)), "oracle-geodesic-special-lines", true);
     }
+    // every public function of the ellipsoid module, model against implementation: every built-in
+    // name (exhaustively) and random shapes x poles, equator, random latitudes, distances, points
+    ell_cases(g, &ells, if thorough { 12 } else { 2 });
     // the operators on the same quantities, with the model
     for _ in 0..rounds {
         let ellps = *g.rng.pick(&proj::ELLPS);
@@ -83,5 +86,58 @@ pub fn generate(g: &mut Gen, thorough: bool) {
         let gi: Vec<[f64; 4]> = (0..6).map(|_| [g.rng.uniform(-70.0, 70.0), g.rng.uniform(-179.0, 179.0), g.rng.uniform(-70.0, 70.0), g.rng.uniform(-179.0, 179.0)]).collect();
         g.push(op_line("default", &[], &[], &format!("geodesic ellps={ellps}"), "apply", "I", &data_of(&gi)), "model-geodesic", true);
         let _ = fbits(0.0);
+    }
+}
+
+pub const ELL_CONSTANTS: [&str; 16] = [
+    "semimajor_axis", "flattening", "semiminor_axis", "second_flattening", "third_flattening", "aspect_ratio", "linear_eccentricity", "eccentricity_squared",
+    "eccentricity", "second_eccentricity_squared", "second_eccentricity", "polar_radius_of_curvature", "normalized_meridian_arc_unit", "rectifying_radius",
+    "rectifying_radius_bowring", "meridian_quadrant",
+];
+pub const ELL_LATITUDE_FUNCTIONS: [&str; 15] = [
+    "prime_vertical_radius_of_curvature", "meridian_radius_of_curvature", "meridian_latitude_to_distance", "latitude_geographic_to_geocentric", "latitude_geocentric_to_geographic",
+    "latitude_geographic_to_reduced", "latitude_reduced_to_geographic", "latitude_geographic_to_isometric", "latitude_geographic_to_rectifying", "latitude_rectifying_to_geographic",
+    "latitude_geographic_to_conformal", "latitude_conformal_to_geographic", "latitude_geographic_to_authalic", "latitude_authalic_to_geographic", "latitude_isometric_to_geographic",
+];
+
+pub fn ell_cases(g: &mut Gen, ells: &[String], rounds: usize) {
+    let hp = std::f64::consts::FRAC_PI_2;
+    for e in ells {
+        let name = crate::wire::escape(e);
+        for f in ELL_CONSTANTS {
+            g.push(format!("ELL\t{name}\t{f}\t-"), "ell-constants", true);
+        }
+        let mut lats = vec![0.0, hp, -hp, 1e-9, -0.5];
+        for _ in 0..rounds {
+            lats.push(g.rng.uniform(-1.57, 1.57));
+        }
+        for x in &lats {
+            for f in ELL_LATITUDE_FUNCTIONS {
+                // (the isometric latitude of a pole is infinite: the way back starts from finite values)
+                let x = if f == "latitude_isometric_to_geographic" { x * 3.0 } else { *x };
+                g.push(format!("ELL\t{name}\t{f}\t{}", fbits(x)), "ell-latitude-functions", true);
+            }
+            g.push(format!("ELL\t{name}\tmeridian_distance_to_latitude\t{}", fbits(x * 6.3e6)), "ell-latitude-functions", true);
+        }
+        for _ in 0..rounds {
+            let rl = g.rng.uniform(-1.57, 1.57);
+            let (lon, lat, h) = (g.rng.uniform(-3.14, 3.14), *g.rng.pick(&[rl, rl, rl, hp, -hp, 0.0]), g.rng.uniform(-1e4, 1e5));
+            let args = |v: [f64; 4]| v.iter().map(|x| fbits(*x)).collect::<Vec<_>>().join(",");
+            g.push(format!("ELL\t{name}\tcartesian\t{}", args([lon, lat, h, 2000.0])), "ell-cartesian", true);
+            let (s, c) = lat.sin_cos();
+            let r = 6.37e6 + h;
+            g.push(format!("ELL\t{name}\tgeographic\t{}", args([r * c * lon.cos(), r * c * lon.sin(), r * s * 0.9966, 2000.0])), "ell-geographic", true);
+            let rd = g.rng.uniform(10.0, 1.9e7);
+            let (az, d) = (g.rng.uniform(-3.14, 3.14), *g.rng.pick(&[rd, rd, rd, 0.0, 1.0]));
+            g.push(format!("ELL\t{name}\tgeodesic_fwd\t{}", args([lon, lat.clamp(-1.5, 1.5), az, d])), "ell-geodesic-fwd", true);
+            let (lon2, lat2) = (g.rng.uniform(-3.14, 3.14), g.rng.uniform(-1.5, 1.5));
+            g.push(format!("ELL\t{name}\tgeodesic_inv\t{}", args([lon, lat.clamp(-1.5, 1.5), lon2, lat2])), "ell-geodesic-inv", true);
+            g.push(format!("ELL\t{name}\tdistance\t{}", args([lon, lat.clamp(-1.5, 1.5), lon2, lat2])), "ell-distance", true);
+        }
+        // special lines: along a meridian, along the equator, a point onto itself, across the antimeridian
+        let args = |v: [f64; 4]| v.iter().map(|x| fbits(*x)).collect::<Vec<_>>().join(",");
+        for v in [[0.3, -0.4, 0.3, 0.9], [0.3, 0.0, 0.5, 0.0], [0.2, 0.9, 0.2, 0.9], [3.1, 0.5, -3.1, 0.6], [0.0, hp, 1.0, -hp]] {
+            g.push(format!("ELL\t{name}\tgeodesic_inv\t{}", args(v)), "ell-geodesic-special", true);
+        }
     }
 }
